@@ -301,13 +301,30 @@ static void mutate(int slot, const op_t *o)
     }
     case K_TOK: {
         spif_tok_t tk = SPIF_TOK(x);
-        if (how % 4 == 0) { spif_tok_set_src(tk, spif_str_new_from_ptr((spif_charptr_t)t)); probe_hit("property_setter"); }
+        long mode = o->na > 2 ? o->a[2] : 0;
+        if (mode == 1) { spif_tok_set_src(tk, (spif_str_t)NULL); probe_hit("property_set_to_null"); }          /* a tokenizer without a source */
+        else if (mode == 2) {
+            /* a token list handed in from outside */
+            spif_list_t l = SPIF_LIST_NEW(dlinked_list);
+            SPIF_LIST_APPEND(l, SPIF_OBJ(spif_str_new_from_ptr((spif_charptr_t)"tA"))); SPIF_LIST_APPEND(l, SPIF_OBJ(spif_str_new_from_ptr((spif_charptr_t)t)));
+            spif_tok_set_tokens(tk, l); probe_hit("tok_tokens_handed_in");
+        }
+        else if (mode == 3) { spif_tok_set_sep(tk, (spif_str_t)NULL); probe_hit("property_set_to_null"); }
+        else if (how % 4 == 0) { spif_tok_set_src(tk, spif_str_new_from_ptr((spif_charptr_t)t)); probe_hit("property_setter"); }
         else if (how % 4 == 1) { spif_tok_set_sep(tk, spif_str_new_from_ptr((spif_charptr_t)":,")); probe_hit("property_setter"); }
         else { if (tk->tokens) probe_hit("tok_reevaluated"); spif_tok_eval(tk); }
         break;
     }
     case K_URL: {
         spif_url_t u = SPIF_URL(x);
+        long mode = o->na > 2 ? o->a[2] : 0;
+        if (mode) {
+            /* a component taken away again */
+            switch (mode % 4) { case 0: spif_url_set_host(u, (spif_str_t)NULL); break; case 1: spif_url_set_port(u, (spif_str_t)NULL); break;
+                                case 2: spif_url_set_path(u, (spif_str_t)NULL); break; default: spif_url_set_user(u, (spif_str_t)NULL); break; }
+            probe_hit("property_set_to_null");
+            break;
+        }
         switch (how % 5) {
         case 0: spif_url_set_host(u, spif_str_new_from_ptr((spif_charptr_t)"h.example")); probe_hit("property_setter"); break;
         case 1: spif_url_set_port(u, spif_str_new_from_num(how % 9000)); probe_hit("property_setter"); break;
@@ -553,7 +570,12 @@ static void gen_common(plan_t *p, rng_t *r, int c05)
             ex[s] = 1; kinds[s] = kind;
             continue;
         }
-        if (k < 35) { const char *t = texts[rng_below(r, sizeof(texts) / sizeof(texts[0]))]; o = plan_op(p, 0, "mut", 2, (long)s, (long)rng_below(r, 1000)); op_str(o, t, strlen(t)); }
+        if (k < 35) {
+            const char *t = texts[rng_below(r, sizeof(texts) / sizeof(texts[0]))];
+            if ((kinds[s] == K_TOK || kinds[s] == K_URL) && rng_chance(r, 1, 5)) o = plan_op(p, 0, "mut", 3, (long)s, (long)rng_below(r, 1000), (long)rng_range(r, 1, 3));
+            else o = plan_op(p, 0, "mut", 2, (long)s, (long)rng_below(r, 1000));
+            op_str(o, t, strlen(t));
+        }
         else if (k < 50) plan_op(p, 0, "query", 2, (long)s, (long)rng_below(r, 1000));
         else if (k < 72) { int d = (int)rng_below(r, NSLOT); if (!ex[d]) { plan_op(p, 0, "dup", 2, (long)s, (long)d); ex[d] = 1; kinds[d] = kinds[s]; } }
         else if (k < 82) plan_op(p, 0, "donereinit", 2, (long)s, (long)rng_below(r, 1000));
